@@ -44,10 +44,15 @@ RnTerms == {a, IntT(7), Flt(3, -1), V("$X"), V("$Y"), Anon, EmptyList,
             Lst(<<V("$X")>>), Lst(<<a, EmptyList>>), Lst(<<a, Lst(<<V("$Y")>>)>>), Lst(<<EmptyList>>),
             LstT(<<V("$X")>>, V("$T")), LstT(<<a, V("$Y")>>, Anon), Lst(<<Lst(<<Lst(<<V("$X")>>)>>)>>),
             Cx("f", <<Lst(<<V("$Y"), EmptyList>>)>>), Fn("add", <<V("$X"), IntT(1)>>),
-            Lst(<<V("$X"), V("$Y"), V("$X")>>), Cx("h", <<>>), Lst(<<Cx("f", <<EmptyList>>), Lst(<<a, a>>)>>)}
+            Lst(<<V("$X"), V("$Y"), V("$X")>>), Cx("h", <<>>), Lst(<<Cx("f", <<EmptyList>>), Lst(<<a, a>>)>>),
+            (* variables that occur only inside a function term, one and two levels down *)
+            Cx("f", <<Fn("add", <<V("$X"), IntT(1)>>)>>), Lst(<<Fn("add", <<V("$Y"), IntT(1)>>), a>>),
+            Cx("g", <<Cx("f", <<Fn("join", <<V("$X"), a>>)>>), a>>), Fn("add", <<Fn("multiply", <<V("$X"), IntT(2)>>), V("$Y")>>),
+            Cx("f", <<Cx("f", <<V("$Y")>>)>>)}
 RnTermsQ == {a, V("$X"), V("$Y"), Anon, EmptyList, Cx("g", <<V("$X"), V("$Y")>>), Lst(<<a, EmptyList>>),
              Lst(<<a, Lst(<<V("$Y")>>)>>), LstT(<<V("$X")>>, V("$T")), Lst(<<Lst(<<Lst(<<V("$X")>>)>>)>>),
-             Fn("add", <<V("$X"), IntT(1)>>), Lst(<<EmptyList>>)}
+             Fn("add", <<V("$X"), IntT(1)>>), Lst(<<EmptyList>>),
+             Cx("f", <<Fn("add", <<V("$X"), IntT(1)>>)>>), Lst(<<Fn("add", <<V("$Y"), IntT(1)>>), a>>)}
 RnVecs == LET U == IF Thorough THEN RnTerms ELSE RnTermsQ IN
              {<<t1>> : t1 \in RnTerms} \cup {<<t1, t2>> : t1 \in RnTerms, t2 \in RnTerms}
         \cup {<<t1, t2, t3>> : t1 \in U, t2 \in RnTermsQ, t3 \in U}
